@@ -138,6 +138,7 @@ def run(an: Analysis, rep):
     from . import c02, c09, c10
     rep.run(r016, an, rep)
     rep.run(r015_order, an, rep)
+    rep.run(r017, an, rep)
     rep.run(c09.duplicates_key_rule, an, SharedRules(rep, "R01.K", "table entries the encoder cannot tell apart by key keep their position (shared with C09's R09.2): otherwise re-encoding merges them"))
     rep.run(c10.format_rules, an, SharedRules(rep, "R01.L", "line-table format constants (shared with C10's R10.*): byte equality of co_lnotab / co_linetable needs them"))
     rep.run(c02.jump_rules, an, SharedRules(rep, "R01.J", "jump scale / offsets / cell-free shift on both sides (shared with C02's R02.3-R02.5): byte equality of co_code needs them"))
@@ -321,3 +322,104 @@ def r015(an: Analysis, rep, V):
     ok = has_pos == (V >= (3, 8))
     rep.add("R01.5", "co_posonlyargcount read iff the interpreter has it", ok, "code_data/_code_data.py",
             f"{cfg}: {'read' if has_pos else 'not read'}" if ok else f"{cfg}: co_posonlyargcount {'read although it does not exist' if has_pos else 'not read although code() takes it'}", config=cfg)
+
+
+def r017(an: Analysis, rep):
+    """Key-domain agreement of the line mapping between the two directions.
+
+    The mapping parsed from a line table has one key per code unit.  When the table builder sizes its last entry from the last key of
+    the mapping (`<last key> + <unit>`), the mapping handed to it must have a key for the last code unit, i.e. the assembler must
+    register every unit it emits, not only the first unit of an instruction."""
+    from .encode_model import inline_locals, parent_map
+    rep.rule("R01.7", "the encoder's line mapping has a key for every code unit whenever the table builder sizes the last entry from the last key", 1)
+    lm = an.prog.cls("code_data._line_mapping::LineMapping")
+    it, _ = an.interp("to_code")
+    # ---- the consumer's assumption
+    assumptions = []
+    dict_fields = [f.name for f in lm.fields if "dict" in norm_src(f.node.annotation).lower()]
+    for f in an.closure("to_code"):
+        pm = parent_map(f.module)
+        for loop in ast.walk(f.node):
+            if not (isinstance(loop, ast.For) and isinstance(loop.iter, ast.Call) and isinstance(loop.iter.func, ast.Attribute)
+                    and loop.iter.func.attr == "items" and isinstance(loop.iter.func.value, ast.Attribute) and loop.iter.func.value.attr in dict_fields):
+                continue
+            if not (isinstance(loop.target, ast.Tuple) and loop.target.elts and isinstance(loop.target.elts[0], ast.Name)):
+                continue
+            key = loop.target.elts[0].id
+            fieldname = loop.iter.func.value.attr
+            # statements after the loop in the same suite
+            par = pm.get(id(loop))
+            for suite in ("body", "orelse", "finalbody"):
+                stmts = getattr(par, suite, None)
+                if isinstance(stmts, list) and any(s is loop for s in stmts):
+                    after = stmts[[i for i, s in enumerate(stmts) if s is loop][0] + 1:]
+                    for st in after:
+                        for n in ast.walk(st):
+                            if isinstance(n, ast.BinOp) and isinstance(n.op, ast.Add):
+                                l, r = n.left, n.right
+                                for a, b in ((l, r), (r, l)):
+                                    if isinstance(a, ast.Name) and a.id == key and isinstance(b, ast.Constant) and isinstance(b.value, int) and b.value > 0:
+                                        assumptions.append((f, n, fieldname, b.value))
+    if not assumptions:
+        rep.add("R01.7", "line-table builder::end of table", True, "code_data/_line_mapping.py",
+                "no table builder derives the end of the table from the last key of the mapping: nothing to agree on")
+        return
+    # ---- the producer: stores into that field in the assembler
+    for cf, cexpr, fieldname, unit in assumptions:
+        stores = []
+        for f in an.closure("to_code"):
+            if f.qual.startswith(lm.qual + "."):
+                continue  # the trailing-line method keys one past the code, like the decoder's counterpart
+            pm = parent_map(f.module)
+            for n in ast.walk(f.node):
+                if isinstance(n, ast.Assign) and isinstance(n.targets[0], ast.Subscript) and isinstance(n.targets[0].value, ast.Attribute) and n.targets[0].value.attr == fieldname:
+                    stores.append((f, n, pm))
+        if not stores:
+            raise AnalysisError(f"no store into LineMapping.{fieldname} found in the encoder")
+        by_fn: Dict[str, list] = {}
+        for f, n, pm in stores:
+            by_fn.setdefault(f.qual, []).append((f, n, pm))
+        for q, lst in sorted(by_fn.items()):
+            f, _, pm = lst[0]
+            # the byte list: what the keys measure with len()
+            blists = set()
+            for _, n, _ in lst:
+                k = inline_locals(f.node, n.targets[0].slice)
+                for x in ast.walk(k):
+                    if isinstance(x, ast.Call) and isinstance(x.func, ast.Name) and x.func.id == "len" and x.args and isinstance(x.args[0], ast.Name):
+                        blists.add(x.args[0].id)
+            if len(blists) != 1:
+                raise AnalysisError(f"{q}: the key of the line store is not len(<byte list>) ({sorted(blists)})")
+            B = blists.pop()
+            appends = [c for c in ast.walk(f.node) if isinstance(c, ast.Call) and isinstance(c.func, ast.Attribute) and c.func.attr in ("append", "extend")
+                       and isinstance(c.func.value, ast.Name) and c.func.value.id == B]
+            if not appends:
+                raise AnalysisError(f"{q}: no append to the byte list {B}")
+
+            def loops_of(node):
+                out = []
+                cur = node
+                while id(cur) in pm and pm[id(cur)] is not f.node:
+                    cur = pm[id(cur)]
+                    if isinstance(cur, (ast.For, ast.While)):
+                        out.append(cur)
+                return out
+            app_loops = [loops_of(c) for c in appends]
+            innermost = max(app_loops, key=len)
+            # a store is per-unit when it sits in a loop at least as deep as the one emitting the units
+            per_unit = [n for _, n, _ in lst if len(loops_of(n)) >= len(innermost)]
+            # ... or the emitting loop provably runs once
+            once = False
+            if innermost:
+                lp = innermost[0]
+                if isinstance(lp, ast.For):
+                    try:
+                        once = len(list(feval(lp.iter, {}))) == 1
+                    except Exception:
+                        once = False
+            ok = bool(per_unit) or once
+            rep.add("R01.7", f"{q}::every emitted code unit is keyed in {fieldname}", ok, loc(f.module, lst[0][1]),
+                    f"`{norm_src(per_unit[0])}` runs once per emitted unit; the builder's `{norm_src(cexpr)}` in {cf.qual} is then the end of the code" if ok else
+                    f"`{norm_src(lst[0][1])}` runs once per instruction, while `{norm_src(appends[0])[:60]}` runs once per code unit ({len(innermost)} loops deep against "
+                    f"{len(loops_of(lst[0][1]))}); {cf.qual} sizes the last entry of the table as `{norm_src(cexpr)}`, which takes the last key for the last code unit: "
+                    f"a code object whose last instruction carries EXTENDED_ARG prefixes re-encodes with a line table that ends {unit} bytes per prefix short of co_code")
